@@ -824,7 +824,7 @@ def generate(rng, tier):
     # ---- the quadrature branch together with the diagnostics of Integrate (coq/C06_Model2.v): GammaQint's answer and the number of panels whose
     #      Integrate call reported "did not converge" / "Result is nan"; and single panels of GammaQint's integrand handed to Integrate with a recursion
     #      floor 0 .. 8 (and the 20 GammaQint uses), so that both outcomes of  bottom <= 0 && fabs(S2 - S) > 15 epsilon  are visited
-    for _ in range(2500 if big else 70):
+    for _ in range(2500 if big else 50):
         a2 = _near(rng, 100.0) if rng.random() < 0.15 else 10 ** rng.uniform(2, 4)
         a2 = min(max(a2, math.nextafter(100.0, math.inf)), 1e4)
         cs.append(Case(f"qintw {hx(_rand_x(rng, a2))} {hx(a2)}", ("method", "quadrature-diagnostics")))
@@ -862,9 +862,23 @@ def generate(rng, tier):
             else: p = min(max(rng.random(), 1e-3), 1 - 1e-3)
         cs.append(Case(f"{op} {hx(p)} {hx(a)}", ("inverse", "a>100" if a > 100 else "a<=100")))
     # a just above 1: the Wilson-Hilferty guess (used for a > 1) is poorest there, Halley needs its full accuracy
-    for _ in range(3000 if big else 250):
+    for _ in range(3000 if big else 170):
         a = 1 + 10 ** rng.uniform(-3, -0.5); p = rng.uniform(0.5, 0.999)
         cs.append(Case(f"invp {hx(p)} {hx(a)}", ("inverse", "a-just-above-1")))
+    # shapes slightly above 1 (ladder a-1 = 1e-6 .. 3) with small targets (log ladder 1e-7 .. 1e-2; q = 1-p through Inv_GammaQ): the Wilson-Hilferty cube of the
+    # starting value is negative or tiny there and only the clamp max(1e-3, .) keeps Halley's loop from answering 0 at its first test; alone and inside histories
+    for i in range(1500 if big else 110):
+        a = 1.0 + 10 ** rng.uniform(-6, math.log10(3.0)); p = 10 ** rng.uniform(-7, -2)
+        if rng.random() < 0.25: p = 10 ** rng.uniform(-6.9, -3.5)     # well inside: deviation |0 - p| far above 1e-7
+        if rng.random() < 0.6: cs.append(Case(f"invp {hx(p)} {hx(a)}", ("inverse", "a-above-1-small-p")))
+        else: cs.append(Case(f"invq {hx(1.0 - p)} {hx(a)}", ("inverse", "a-above-1-small-p")))
+        if i % 4 == 0:      # the same class inside a history: a ladder of small targets at one shape, both inverses, an ordinary request in between
+            calls = []
+            for _ in range(rng.choice([2, 3, 4])):
+                pj = 10 ** rng.uniform(-7, -2)
+                calls.append(f"invp {hx(pj)} {hx(a)}" if rng.random() < 0.6 else f"invq {hx(1.0 - pj)} {hx(a)}")
+                if rng.random() < 0.4: calls.append(_ordinary_call(rng, a))
+            cs.append(Case(f"seq {len(calls)} " + " ".join(calls), ("history", "inverse-small-p-a-above-1")))
     for p, a in [(0.0, 2.0), (1.0, 2.0), (1.5, 2.0), (-0.5, 2.0), (1.0, 1e4), (0.5, 0.0), (0.5, -1.0), (1.0, 0.5)]:
         cs.append(Case(f"invp {hx(p)} {hx(a)}", ("inverse", "guard")))
         cs.append(Case(f"invq {hx(p)} {hx(a)}", ("inverse", "guard")))
@@ -1194,7 +1208,11 @@ def predicates(c, io):
             lo = math.nextafter(x, -math.inf) if x > 0 else 0.0; hi = math.nextafter(x, math.inf)
             tl = ref_PQ(lo, a)[0 if op == "invp" else 1]; th = ref_PQ(hi, a)[0 if op == "invp" else 1]
             if not (min(tl, th) - referr <= p <= max(tl, th) + referr):
-                reg = "subnormal" if x < 2.2250738585072014e-308 else region(a)     # solution below the normal range: the density x^(a-1)/Gamma(a) overflows
+                # region "subnormal" (K-C06-4): the TRUE solution lies below the normal range (decided by the reference at the smallest normal double), where the
+                # density x^(a-1)/Gamma(a) overflows; an answer 0 / subnormal to a request whose solution is an ordinary double is NOT that region
+                tn = ref_PQ(2.2250738585072014e-308, a)[0 if op == "invp" else 1]
+                sol_subnormal = (tn >= p) if op == "invp" else (tn <= p)
+                reg = "subnormal" if (x < 2.2250738585072014e-308 and sol_subnormal) else region(a)
                 out.append((op + ":inverse:" + reg, f"{name}({op}(p,a),a) = {target!r} for p = {p!r}, a = {a!r} (x = {x!r}): off by {abs(target-p):.3g} > {tol:g}"))
         elif back is not None and not (abs(back - p) <= tol + acc_tol(a)):
             out.append((op + ":inverse-lib:" + region(a), f"library {name} at the returned x = {back!r} for p = {p!r}, a = {a!r}"))
